@@ -38,6 +38,12 @@ type mutantSpec struct {
 	File    string   `json:"file"`
 	Find    string   `json:"find"`
 	Replace string   `json:"replace"`
+	// More holds further (find, replace) pairs in the same file, applied after the first
+	// (each anchor must occur exactly once): refactorings that touch two places.
+	More []struct {
+		Find    string `json:"find"`
+		Replace string `json:"replace"`
+	} `json:"more,omitempty"`
 	Expect  []string `json:"expect"`
 	Note    string   `json:"note,omitempty"`
 	// Equivalent marks a behaviour-preserving refactoring: the rules must stay silent.
@@ -266,7 +272,15 @@ func runMutant(repo, prop string, pm *propMeta, specPath string) int {
 		fmt.Printf("MUTANT skipped %s (anchor text not found exactly once in %s)\n", m.Name, m.File)
 		return 3
 	}
-	ov := map[string][]byte{file: []byte(strings.Replace(string(src), m.Find, m.Replace, 1))}
+	text := strings.Replace(string(src), m.Find, m.Replace, 1)
+	for _, e := range m.More {
+		if strings.Count(text, e.Find) != 1 {
+			fmt.Printf("MUTANT skipped %s (anchor text not found exactly once in %s)\n", m.Name, m.File)
+			return 3
+		}
+		text = strings.Replace(text, e.Find, e.Replace, 1)
+	}
+	ov := map[string][]byte{file: []byte(text)}
 	w, err := loadVariant(repo, "native", ov)
 	if err != nil {
 		fmt.Printf("MUTANT invalid %s: %v\n", m.Name, err)
